@@ -1068,17 +1068,17 @@ Section Entry.
   Hypothesis Hcut2 : e_su_cut E2 = true.
   Hypothesis Hcut0 : e_su_cut E0 = true.
 
-  Lemma start2 : i_start (e_inp E2) = 0 + a.
+  Lemma sub_start2 : i_start (e_inp E2) = 0 + a.
   Proof. destruct HE as ((_ & Hs & _) & _). exact Hs. Qed.
 
-  Lemma start0 : i_start (e_inp E0) = 0.
+  Lemma sub_start0 : i_start (e_inp E0) = 0.
   Proof. destruct HE as (_ & H0 & _). rewrite H0. reflexivity. Qed.
 
   Lemma partial_parse_sub fuel r :
     try_parse_partial E2 fuel r = shift_pres a (try_parse_partial E0 fuel r)
     /\ res_ok (cur_ok (b - a)) (b - a) (try_parse_partial E0 fuel r).
   Proof.
-    unfold try_parse_partial. rewrite start2, start0. rewrite <- (shift_state0 a) at 1.
+    unfold try_parse_partial. rewrite sub_start2, sub_start0. rewrite <- (shift_state0 a) at 1.
     apply subinput_parse with (s := s); try assumption; [lia|apply state_ok0].
   Qed.
 
@@ -1086,7 +1086,7 @@ Section Entry.
     try_check_partial E2 fuel r = shift_cres a (try_check_partial E0 fuel r)
     /\ res_ok (fun p => p <= b - a) (b - a) (try_check_partial E0 fuel r).
   Proof.
-    unfold try_check_partial. rewrite start2, start0. rewrite <- (shift_state0 a) at 1.
+    unfold try_check_partial. rewrite sub_start2, sub_start0. rewrite <- (shift_state0 a) at 1.
     apply subinput_check with (s := s); try assumption; [lia|apply state_ok0].
   Qed.
 
